@@ -247,7 +247,8 @@ def register(E):
             x = it_next(e, it.inner)
             if x.variant == 0:
                 return x
-            return some(clone_val(deref(x.fields[0])))
+            y = x.fields[0]
+            return some(clone_val(y.get() if isinstance(y, Ref) else y))   # one level: &&T -> &T
         if k == 'filter':
             while True:
                 x = it_next(e, it.inner)
@@ -298,7 +299,10 @@ def register(E):
             return none()
         if it.kind == 'cloned':
             x = it_next_back(e, it.inner)
-            return x if x.variant == 0 else some(clone_val(deref(x.fields[0])))
+            if x.variant == 0:
+                return x
+            y = x.fields[0]
+            return some(clone_val(y.get() if isinstance(y, Ref) else y))
         raise Unsupported('next_back on ' + it.kind)
 
     E.it_next = it_next
@@ -602,6 +606,7 @@ def register(E):
     B['PartialOrd::partial_cmp'] = lambda e, a, c: some(ord_cmp(e, a, c))
 
     def cmp3(e, x, y):
+        x, y = deref(x), deref(y)
         if isinstance(x, Agg) and x.name == 'Reverse' and isinstance(y, Agg):
             return -cmp3(e, x.fields[0], y.fields[0])
         if isinstance(x, Agg):
@@ -973,6 +978,28 @@ def register(E):
     E.map_into_iter = map_iter('pairs', False)
     E.set_into_iter = map_iter('keys', False)
 
+
+    def set_op(kind):
+        # difference / intersection / union of two sets: a lazy iterator over references, in the iteration
+        # order of the first set (then of the second for union) — the environment's choice for hashed sets
+        def f(e, a, c):
+            m1, m2 = deref(a[0]), deref(a[1])
+            out = []
+            for i in env_order(e, m1):
+                _, found = locate(e, m2, m1.keys[i])
+                if kind == 'union' or (found == (kind == 'intersection')):
+                    out.append(Ref(m1.keys, i))
+            if kind == 'union':
+                for i in env_order(e, m2):
+                    _, found = locate(e, m1, m2.keys[i])
+                    if not found:
+                        out.append(Ref(m2.keys, i))
+            return IterV('slice', vec=VecV(out), i=0, j=len(out), by_ref=False)
+        return f
+    for ty in ('HashSet', 'BTreeSet'):
+        for kind in ('difference', 'intersection', 'union'):
+            B['%s::%s' % (ty, kind)] = set_op(kind)
+
     def env_value(e, a, c):
         e.env_reads += 1
         return e.fresh_int('env_%d' % e.env_reads, 0, 2 ** 62)
@@ -1022,6 +1049,62 @@ def register(E):
               'core::result::unwrap_failed', 'core::option::unwrap_failed', 'core::option::expect_failed',
               'core::panicking::panic_bounds_check', 'std::rt::begin_panic'):
         B[k] = panic
+
+
+    # ------------------------------------------------------------------ boxes (transparent), merge_join_by, partition_map
+    B['Box::new'] = lambda e, a, c: a[0]
+
+    def merge_join_by(e, a, c):
+        left = drain(e, into_iter(e, [a[0]], ''))
+        right = drain(e, into_iter(e, [a[1]], ''))
+        out = []
+        i = j = 0
+        while i < len(left) and j < len(right):
+            lc, rc = [left[i]], [right[j]]
+            o = e.call_value(a[2], [Ref(lc, 0), Ref(rc, 0)])
+            o = o.variant
+            if o < 0:
+                out.append(Agg('EitherOrBoth', 1, [left[i]]))
+                i += 1
+            elif o > 0:
+                out.append(Agg('EitherOrBoth', 2, [right[j]]))
+                j += 1
+            else:
+                out.append(Agg('EitherOrBoth', 0, [left[i], right[j]]))
+                i += 1
+                j += 1
+        out += [Agg('EitherOrBoth', 1, [x]) for x in left[i:]]
+        out += [Agg('EitherOrBoth', 2, [x]) for x in right[j:]]
+        v = VecV(out)
+        return IterV('slice', vec=v, i=0, j=len(out), by_ref=False)
+    B['Itertools::merge_join_by'] = merge_join_by
+
+    def partition_map(e, a, c):
+        l, r = [], []
+        for x in drain(e, a[0]):
+            y = e.call_value(a[1], [x])
+            (l if y.variant == 0 else r).append(y.fields[0])
+        return Agg('tuple', None, [VecV(l), VecV(r)])
+    B['Itertools::partition_map'] = partition_map
+
+
+    # ------------------------------------------------------------------ strings (python str, replaced in place through the reference)
+    B['String::new'] = lambda e, a, c: ''
+
+    def str_of(v):
+        v = deref(v)
+        return v if isinstance(v, str) else '<%r>' % (v,)
+
+    def string_push_str(e, a, c):
+        r = a[0]
+        while isinstance(r, Ref) and isinstance(r.get(), Ref):
+            r = r.get()
+        r.set(str_of(r) + str_of(a[1]))
+        return UNIT
+    B['String::push_str'] = string_push_str
+    B['String::is_empty'] = lambda e, a, c: len(str_of(a[0])) == 0
+    B['str::is_empty'] = B['String::is_empty']
+    B['String::as_str'] = lambda e, a, c: a[0]
 
     # the generic parameter's name is not known at MIR level: one constant per call-site type argument
     B['std::any::type_name'] = lambda e, a, c: 'T<' + (re.search(r'type_name::<(.*)>$', c).group(1) if re.search(r'type_name::<(.*)>$', c) else '?') + '>'
